@@ -1874,6 +1874,20 @@ impl<'a> Socket<'a> {
             control = TcpControl::None;
         }
 
+        // Likewise, if the segment overran the right edge of the receive window its tail
+        // was trimmed away, so the FIN that follows that tail has not been reached yet.
+        if control == TcpControl::Fin
+            && !matches!(self.state, State::Listen | State::SynSent)
+            && window_end < segment_end
+        {
+            tcp_trace!(
+                "ignoring FIN because the segment was trimmed to the receive window. window_end={} segment_end={}",
+                window_end,
+                segment_end
+            );
+            control = TcpControl::None;
+        }
+
         // Validate and update the state.
         match (self.state, control) {
             // RSTs are not accepted in the LISTEN state.
